@@ -162,7 +162,12 @@ func model(s *Scen) verdict {
 	}
 	if s.Crit != "none" && !(v.executed && s.Crit == "processed") {
 		// a critical extended attribute that nothing processes must never be accepted
-		return verdict{why: "critical-attribute-nobody"}
+		if s.Plugin == "none" {
+			return verdict{why: "critical-attribute-no-plugin"}
+		}
+		// the demanded plugin is usable but is not executed (its only capability is the
+		// revocation check and the level skips revocation)
+		return verdict{why: "critical-attribute-plugin-not-executed"}
 	}
 	v.accept = true
 	v.failed["authenticity"] = authFail
